@@ -43,6 +43,7 @@ package session
 //@     modifies self.*, gOut(self), gIn(self)
 //@     ensures[C10] imp(err == nil && storageID.Side == fix.Incoming, cIn(self) == seqNum && cOut(self) == old(cOut(self)))
 //@     ensures[C10,C05] imp(err != nil, cIn(self) == old(cIn(self)) && cOut(self) == old(cOut(self)))
+//@     ensures[C06,C07,C09,C10,C14,C15,C16] @bundled imp(istype(self, *memory.Storage), err == nil)
 
 // stored(ms, k): the message saved under sequence number k (ghost for foreign stores)
 //@ ghostfield gStored map
@@ -379,6 +380,7 @@ package session
 //@   call SetSeqNum#1: witness seterr = ret
 //@   ensures[C10] @notduringlogon imp(old(s.state) == WaitingLogon || old(s.state) == WaitingLogonAnswer, cIn(s.counter) == old(cIn(s.counter)) && ok)
 //@   ensures[C16] @continues imp(seterr == nil, ok)
+//@   ensures[C06,C07,C09,C10,C14,C15,C16] @bundledstore imp(istype(s.counter, *memory.Storage), ok)
 //@   ensures[C05] @outgoing cOut(s.counter) == old(cOut(s.counter))
 
 // liveness hook of start(): any inbound message refreshes the timer and ends a pending probe
